@@ -7,6 +7,7 @@ pub fn build(tier: Tier) -> CheckDef {
     let spaces: Vec<Box<dyn Space>> = vec![
         Box::new(StreamSpace { which: Which::C17, cases: stream_cases(tier, Which::C17), threads: tier.pick(4, 8) }),
         Box::new(Occupancy { which: Which::C17, max: tier.pick(40, 80) }),
+        Box::new(HugeOpen { which: Which::C17 }),
     ];
     CheckDef {
         prop: "C17",
